@@ -954,7 +954,11 @@ def b_type(interp, st, args, kwargs):
     elif x.ty is not None and x.shadow is None:
         yield st, ("ok", const(x.ty))
     elif x.shadow is not None and x.root is not None:
-        yield from interp.shadow_apply(st, type, [x], name="type")
+        for s, r in interp.shadow_apply(st, type, [x], name="type"):
+            if r[0] == "ok":
+                # whatever the probe returned per cell, it IS the class object of x
+                s.assume(interp.term(s, r[1]) == T.F_ClsObj(T.F_cls(interp.term(s, x))))
+            yield s, r
     else:
         yield st, ("ok", V("type", T.F_cls(interp.term(st, x))))
 
